@@ -206,6 +206,9 @@ func genImmutReference(repo string) error {
 var immutRefCache *immutRef
 
 func runImmutDrift(c *Ctx, pkgs []string) {
+	if !referenceConfig(c) {
+		return
+	}
 	if immutRefCache == nil {
 		b, err := os.ReadFile(filepath.Join(refDir, "immutable.json"))
 		if err != nil {
